@@ -367,6 +367,13 @@ func (r *Runner) execSelect(st *State, f *Frame, x *ssa.Select) {
 	}
 	st.assume(Le(lo, idx), Lt(idx, IntLit(int64(n))))
 	out := Val{T: x.Type(), C: []Term{idx, Fresh("recvok", SBool)}}
+	// ghost select_chan: identity of the channel whose case was chosen (0 for the default case)
+	chosen := Zero
+	for i := len(x.States) - 1; i >= 0; i-- {
+		ch := r.operand(st, x.States[i].Chan)
+		chosen = Ite(Eq(idx, IntLit(int64(i))), ch.C[0], chosen)
+	}
+	st.ghost["spec:select_chan"] = st.define("selchan", chosen)
 	for _, s := range x.States {
 		if s.Dir == types.RecvOnly {
 			v := freshVal("selrecv", elemOf(s.Chan.Type()))
